@@ -7,7 +7,7 @@ from hgv import gen
 from hgv.model import Model
 from hgv.runner import Result, Viol
 from hgv.trace import Trace
-from hgv.worker import HarnessError
+from hgv.worker import HarnessError, Rejected
 
 ID = "C08"
 RULE = ("Programs with 1-3 feedback edges: accumulator self loops (x + fb), mutual loops (two nodes feeding each other through two "
@@ -150,7 +150,7 @@ def check(case, ctx) -> Result:
         res.violations.append(Viol("engine_crash", f"worker died: {resp.get('signal')} {resp.get('stderr', '')[-400:]}"))
         return res
     if not resp.get("built"):
-        raise HarnessError(f"C08 generator produced a program the tree rejects: {resp.get('error')}")
+        raise Rejected(f"C08 generator produced a program the tree rejects: {resp.get('error')}")
     if resp.get("error"):
         res.violations.append(Viol("run_failed", f"run() threw on a valid program: {resp['error']}"))
         return res
